@@ -16,7 +16,7 @@ import (
 func TestMain(m *testing.M) { vf.Main(m) }
 
 var classFlags = []string{
-	"in-limit-reached", "credit-reissued", "deferred-credit", "complete-before-accept", "complete-out-of-order",
+	"in-limit-reached", "credit-reissued", "credit-capped", "deferred-credit", "complete-before-accept", "complete-out-of-order",
 	"limit-error", "wrong-direction", "never-opened-local", "implicit-open", "deleted-frame-ignored", "deferred-frame-ignored",
 	"open-at-limit", "open-blocked", "queue>=2", "waiter-served", "fifo-multi", "credit-insufficient", "out-credit-after-limit",
 	"waiter-cancelled", "cancel-not-last", "acceptor-cancelled", "cancel-after-return", "precancelled",
